@@ -12,7 +12,11 @@ import (
 type bacState struct {
 	rndIC   []byte
 	pending bool
+	lastReq []byte // the terminal's EXTERNAL AUTHENTICATE data as received
 }
+
+// BACTerminalCryptogram returns the terminal's last EXTERNAL AUTHENTICATE data field.
+func (c *Chip) BACTerminalCryptogram() []byte { return c.bac.lastReq }
 
 // BACKeys derives K_enc / K_mac from the MRZ information (ICAO 9303-11 §9.7.2, 4.3.2).
 func BACKeys(mrzInfo string) (kenc, kmac []byte) {
@@ -38,6 +42,7 @@ func (c *Chip) doExternalAuthenticate(p *apdu.Command) ([]byte, uint16) {
 		return nil, 0x6985
 	}
 	c.bac.pending = false
+	c.bac.lastReq = append([]byte{}, p.Data...)
 	if len(p.Data) != 40 {
 		return nil, 0x6700
 	}
